@@ -459,8 +459,87 @@ def ob_eig_native(dim, seed):
     return Verdict(DISCHARGED, backend="native float run vs numpy eigh (1e-9)", sub=n)
 
 
+def ob_damage_monotone(solver):
+    """Load / unload sequence on a small mesh (native floats): between saved steps the stored nodal damage (damage-based solvers) and the
+    history energy at every integration point (History solver) never decrease; with no loading the damage stays zero."""
+    from EasyFEA import Models, Simulations, SolverType
+    from . import patches
+    PF = Models.PhaseField
+    coords, connect = patches.star_patch("QUAD4", affine=None)      # square [-3,1]^2: whole edges can be clamped / pulled
+    mesh = patches.real_mesh("QUAD4", coords, connect)
+    mat = Models.Elastic.Isotropic(2, E=3.0, v=0.25, planeStress=False)
+    pfm = PF(mat, PF.SplitType.Miehe, PF.ReguType.AT2, Gc=1.0, l0=0.8, solver=PF.SolverType[solver])
+    simu = Simulations.PhaseField(mesh, pfm)
+    simu.solver = SolverType.scipy
+    co = np.asarray(mesh.coord)
+    n0 = np.where(np.isclose(co[:, 0], co[:, 0].min()))[0]
+    n1 = np.where(np.isclose(co[:, 0], co[:, 0].max()))[0]
+    loads = [0.0, 0.6, 1.2, 0.5, 0.0, 0.9]
+    dam, hist = [], []
+    for k, ud in enumerate(loads):
+        simu.Bc_Init()
+        simu.add_dirichlet(n0, [0, 0], ["x", "y"])
+        simu.add_dirichlet(n1, [ud], ["x"])
+        u, d, Kglob_or_conv = simu.Solve(tolConv=1e-3, maxIter=50)[:3] if True else (None, None, None)
+        simu.Save_Iter()
+        dam.append(np.asarray(simu.Get_results(k)["damage"]).copy())
+        if solver == "History":
+            h = getattr(simu, "_PhaseField__old_psiP_e_pg")
+            hist.append(np.asarray(h).copy())
+    if np.abs(dam[0]).max() > 1e-12:
+        raise Refuted(f"{solver}: damage is not zero without loading (max {np.abs(dam[0]).max():.3e})", signature=f"monotone:{solver}:zero", cex=dict(loads=loads), replay=dict(confirmed=True))
+    if solver in ("HistoryDamage", "BoundConstrain"):
+        for k in range(1, len(dam)):
+            dec = float((dam[k - 1] - dam[k]).max())
+            if dec > 1e-9:
+                raise Refuted(f"{solver}: saved nodal damage decreases between saved steps {k-1} and {k} (imposed displacement {loads[k-1]} -> {loads[k]}): max decrease {dec:.3e}",
+                              cex=dict(loads=loads, step=k), signature=f"monotone:{solver}:damage",
+                              replay=dict(confirmed=True, max_damage=[float(d.max()) for d in dam]))
+    else:
+        for k in range(1, len(hist)):
+            if hist[k].shape == hist[k - 1].shape:
+                dec = float((hist[k - 1] - hist[k]).max())
+                if dec > 1e-12:
+                    raise Refuted(f"History: history energy decreases between saved steps {k-1} and {k} (max decrease {dec:.3e})", cex=dict(loads=loads, step=k),
+                                  signature="monotone:History:psi", replay=dict(confirmed=True))
+    return Verdict(DISCHARGED, backend="native float run (run-time contract)", detail=f"max damage per step {[round(float(d.max()), 4) for d in dam]}")
+
+
+def ob_history_damage_stored():
+    """Solve(): with the HistoryDamage solver the irreversible field max(old, new) is what the simulation keeps (it is stored by Save_Iter),
+    not only what is returned.  AST path rule."""
+    from vt import eff
+    fn = extract.get(SPF, "PhaseField.Solve")
+    n = 0
+    for p in eff.paths(fn):
+        if ("branch", "solver == solverTypes.HistoryDamage", True) in p:
+            n += 1
+            ok = any(e[0] == "call" and e[1] in ("self._Set_solutions", "self._Simu__Set_u_n") and "d_np1" in e[2] for e in p)
+            if not ok:
+                raise Refuted("PhaseField.Solve: HistoryDamage computes max(old, new) but never stores it in the simulation (Save_Iter then saves the raw solved damage)",
+                              signature="history_damage:stored", replay=_replay_hd())
+            break
+    if n == 0:
+        raise Unsupported("HistoryDamage branch not found")
+    return Verdict(DISCHARGED, backend="AST path analysis", sub=n)
+
+
+def _replay_hd():
+    try:
+        ob_damage_monotone("HistoryDamage")
+        return dict(confirmed=False)
+    except Refuted as r:
+        return dict(confirmed=True, detail=str(r)[:300])
+    except Exception as e:
+        return dict(confirmed=False, error=repr(e))
+
+
 def build(tier, seed):
     obs = []
+    for solver in ("History", "HistoryDamage", "BoundConstrain"):
+        obs.append(Ob(f"C17.monotone.{solver}", ob_damage_monotone, (solver,), "X", (f"{SPF}::PhaseField.Solve", f"{SPF}::PhaseField.Save_Iter"),
+                      bound="one 4-element mesh, one load/unload/reload sequence of 6 saved steps", clause="stored damage / history energy never decreases between saved steps; zero without loading", timeout=600))
+    obs.append(Ob("C17.history_damage.stored", ob_history_damage_stored, (), "E", (f"{SPF}::PhaseField.Solve",), clause="HistoryDamage: max(old, new) is stored in the simulation state"))
     obs.append(Ob("C17.terms", ob_terms, (), "P", (f"{MP}::PhaseField.k", f"{MP}::PhaseField.c_w", f"{MP}::PhaseField.Get_r_e_pg", f"{MP}::PhaseField.Get_f_e_pg"),
                   clause="AT1/AT2 diffusion, reaction and source terms equal their documented formulas (symbolic Gc, l0, psi)"))
     obs.append(Ob("C17.history.max", ob_history_max, (), "P", (f"{SPF}::PhaseField.__Calc_psiPlus_e_pg",),
